@@ -45,6 +45,7 @@ VARIANTS = {
     4: {"p.go": "package h\n\ntype A struct{ N int }\ntype B struct{ A A }\n\nfunc NewA() A { return A{N: 1} }\nfunc NewB(a A) B { return B{A: a} }\n",
         "wire.go": HDR % "h" + "func InitA() A {\n\tpanic(wire.Build(NewA))\n}\n"},
 }
+TAGSETS = [(), ("-tags=dev",), ("-tags=dev qa",)]
 GARBAGE = "//go:build !wireinject\n// +build !wireinject\n\nthis is not go at all {{{\n" + "\n".join("// filler line %d" % i for i in range(80)) + "\n"
 STALE = "//go:build !wireinject\n// +build !wireinject\n\npackage %s\n\nfunc Stale() int { return 42 }\n\n" + "\n".join("// stale filler %d" % i for i in range(60)) + "\n"
 NONCOMP = "//go:build !wireinject\n// +build !wireinject\n\npackage %s\n\nfunc Broken() int { return undefinedName }\n"
@@ -226,6 +227,12 @@ def eng_cli(pid, tier, wd, known, replay=None):
     cases.append(("diff", ["ok1", "bad"], (), {"ok1": "absent"}))
     cases.append(("diff", ["ok1", "ok2"], (), {"ok1": "equal", "ok2": "stale"}))
     cases.append(("diff", ["ok1", "ok2"], (), {"ok1": "equal", "ok2": "equal"}))
+    # ... the differing / absent output is not the last one compared
+    cases.append(("diff", ["ok1", "ok2"], (), {"ok1": "stale", "ok2": "equal"}))
+    cases.append(("diff", ["ok1", "ok2"], (), {"ok1": "absent", "ok2": "equal"}))
+    cases.append(("diff", ["ok2", "noinj", "ok1"], (), {"ok2": "stale", "ok1": "equal"}))
+    cases.append(("diff", ["ok2", "ok1", "tonly"], (), {"ok2": "equal", "ok1": "absent"}))
+    cases.append(("diff", ["ok1", "ok2"], ("-header_file=HDR",), {"ok1": "trailing", "ok2": "equal"}))
     # near-misses of the expected output: other line endings, one more newline
     for near in ("crlf", "trailing"):
         cases.append(("diff", ["ok1"], (), {"ok1": near}))
@@ -278,27 +285,29 @@ def eng_cli(pid, tier, wd, known, replay=None):
     if pid in ("C18", "C17"):
         refc = {}
         for v, files in VARIANTS.items():
-            for tg in ((), ("-tags=dev",)):
+            for tg in TAGSETS:
                 rc0, c0 = reference(wd, files, "h", tg)
                 refc[(v, tg)] = c0 if rc0 == 0 else None
         ops_all = [("switch", v) for v in VARIANTS] + [("gen",), ("gen",), ("diff",), ("check",), ("delete",), ("replace", "stale"), ("replace", "garbage"), ("replace", "noncomp")]
         hists = []
         n_h = 12 if tier == "quick" else 80
-        for _ in range(n_h):
-            hists.append([rng.choice(ops_all) for _ in range(rng.choice([6, 10, 14]))])
-        hists.append([("switch", 1), ("gen",), ("switch", 2), ("gen",), ("diff",)])          # long output then short output
-        hists.append([("switch", 4), ("gen",), ("switch", 2), ("gen",), ("diff",)])          # outputs differing only in letter case
-        hists.append([("replace", "garbage"), ("switch", 4), ("gen",), ("diff",), ("gen",), ("diff",)])
-        hists.append([("switch", 1), ("gen",), ("switch", 3), ("gen",), ("diff",), ("switch", 4), ("gen",), ("diff",)])
+        for hi in range(n_h):
+            # every fourth history runs all its commands under one tag, every fourth under two
+            hists.append(([rng.choice(ops_all) for _ in range(rng.choice([6, 10, 14]))], TAGSETS[(0, 1, 0, 2)[hi % 4]]))
+        picked = [[("switch", 1), ("gen",), ("switch", 2), ("gen",), ("diff",)],          # long output then short output
+                  [("switch", 4), ("gen",), ("switch", 2), ("gen",), ("diff",)],          # outputs differing only in letter case
+                  [("replace", "garbage"), ("switch", 4), ("gen",), ("diff",), ("gen",), ("diff",)],
+                  [("switch", 1), ("gen",), ("switch", 3), ("gen",), ("diff",), ("switch", 4), ("gen",), ("diff",)]]
+        hists += [(h, ()) for h in picked] + [(picked[0], TAGSETS[2]), (picked[2], TAGSETS[2]), (picked[3], TAGSETS[1])]
+        hists.append(([("gen",), ("gen",), ("diff",), ("switch", 4), ("gen",), ("gen",), ("diff",)], TAGSETS[2]))   # regenerate next to a tagged output
         rep = {"stale": STALE % "h", "garbage": GARBAGE, "noncomp": NONCOMP % "h"}
         cid = {}                     # content (sha) -> small id for the Coq terms
 
         def cnum(b):
             return cid.setdefault(sha(b), len(cid) + 1)
         hterms, hmeta = [], []
-        for hi, hist in enumerate(hists):
+        for hi, (hist, tg) in enumerate(hists):
             root = scratch("hist")
-            tg = ("-tags=dev",) if hi % 3 == 1 else ()      # every third history runs all its commands under -tags
             try:
                 var = 1
                 write_ws(root, {"h": VARIANTS[1]})
